@@ -286,6 +286,7 @@ pub fn check(tier: Tier) -> i32 {
     run.trans(evals);
     run.set(&format!("{}_profile", profile), json!({"evaluations": evals, "states_sum_over_shards": states, "nontrivial_sum_over_shards": nontrivial}));
   }
+  crate::props_sched::c04_concurrent(&run, tier == Tier::Thorough);
   run.sample(|| json!({"cfg": "sync/unsync Optimistic Vec plain, capacity 225", "start": "full-2eq", "prefix": "B(7) D0", "final_call": "alloc_bytes(u32::MAX - allocated + 1)", "expected": "Err(InsufficientSpace), state unchanged, no panic, no signal", "profiles": ["release", "checked (overflow-checks + debug-assertions)"]}));
   run.rule("final call = every (allocation flavour x boundary-dense size) and every typed layout, in every state reached by a prefix of <= 2 operations from 6 start states x 12+ configuration cells x {sync, unsync}, plus read-only reopened arenas; run once in the release profile and once in an overflow-checked build (child process); oracles: Ok => shadow/capacity/alignment/zero/policy oracles, Err => state unchanged and right error kind, never panic, never a signal; evaluations = final calls; non-trivial = refused or list-served calls, distinct by (cell, start, prefix, call)");
   run.set("bounds", json!({"sizes": sizes().len(), "final_ops": final_ops(tier == Tier::Thorough).len(), "prefix_depth": 2, "prefix_alphabet": prefix_alphabet().iter().map(|o| o.short()).collect::<Vec<_>>()}));
